@@ -358,7 +358,6 @@ var c14TomlID = map[gen.C14TOMLFeature]string{
 	gen.TFLocalDateTime:           "C14-toml-datetime-forms",
 	gen.TFDateTimeVariant:         "C14-toml-datetime-forms",
 	gen.TFInlineDottedShared:      "C14-toml-inline-dotted-clobber",
-	gen.TFGlobKey:                 "C14-decode-key-glob",
 }
 
 func c14TOMLDecode(c *c14ctx) {
@@ -440,9 +439,8 @@ func c14TOMLDecode(c *c14ctx) {
 		q.DropEmptyTableBeforeHeader = true
 	case gen.TFInlineDottedShared:
 		q.InlineDottedReplace = true
-	case gen.TFGlobKey:
-		q.GlobKeys = true
 	}
+	// (keys with `*` / `?` used to be decoded as patterns: repaired in /repo, no longer excused)
 	if q != (ref.TOMLQuirks{}) {
 		if qv, err := ref.TOMLBuild(stmts, q); err == nil && c14Eq(c14Dedupe(got), c14Dedupe(qv), false) {
 			c.finding(c14TomlID[feat], "TOML feature %s is decoded wrongly\nexpected: %s\ngot:      %s\ntext: %s", feat, clipStr(want.JSON(), 500), clipStr(got.JSON(), 500), clipStr(text, 600))
